@@ -22,7 +22,14 @@ def main():
         for n in names:
             d = os.path.join(VERIF, 'seeded', n)
             subprocess.check_call(['git', '-C', wt, 'checkout', '-q', '--', '.'])
-            subprocess.check_call(['git', '-C', wt, 'apply', os.path.join(d, 'patch.diff')])
+            if subprocess.call(['git', '-C', wt, 'apply', os.path.join(d, 'patch.diff')]) != 0:
+                subprocess.check_call(['git', '-C', wt, 'checkout', '-q', '--', '.'])
+                if subprocess.call(['git', '-C', wt, 'apply', '--3way', os.path.join(d, 'patch.diff')]) != 0:
+                    subprocess.call(['git', '-C', wt, 'reset', '-q', '--hard', 'HEAD'])
+                    results.setdefault(n, {})['_stale'] = 'patch no longer applies to /repo HEAD'
+                    print(n, 'STALE: patch does not apply', flush=True)
+                    continue
+                subprocess.call(['git', '-C', wt, 'reset', '-q'])
             prop = n.split('-')[0]
             plist = sorted(PROPS) if allp else [prop]
             results.setdefault(n, {})
@@ -52,7 +59,7 @@ def main():
         shutil.rmtree(bd, ignore_errors=True)
         import hashlib
         tag = hashlib.sha1(os.path.abspath(wt).encode()).hexdigest()[:10]
-        for x in os.listdir(os.path.join(VERIF, '.cache')):
+        for x in (os.listdir(os.path.join(VERIF, '.cache')) if os.path.isdir(os.path.join(VERIF, '.cache')) else []):
             if x.endswith(tag):
                 shutil.rmtree(os.path.join(VERIF, '.cache', x), ignore_errors=True)
 
